@@ -178,6 +178,19 @@ func checkTx(r *rec.Run, tx *rec.Tx, calls []rec.Call, nb int, acyclic bool, fd 
 					return fmt.Errorf("tx %s(%v) %v -> %v: binding %d got %d %sState and %d %sEnd calls, want %d and %d",
 						tx.Type, tx.Called, tx.TimeBefore, tx.TimeAfter, b, gs, n, ge, n, ws, we)
 				}
+				// self handlers: documented for the states active before AND after the transition
+				// (incl. a re-activated Multi state) - their veto can only count if they are called
+				// (Add and Set mutations: the library does not run self handlers in Remove mutations)
+				if !tx.IsAuto && tx.Type != "remove" {
+					wself := 0
+					if before[n] && after[n] {
+						wself = 1
+					}
+					if gself := cnt[fmt.Sprintf("%d/%s%s", b, n, n)]; gself != wself {
+						return fmt.Errorf("tx %s(%v) %v -> %v: binding %d got %d calls of the self handler %s%s, want %d (state active before=%v after=%v)",
+							tx.Type, tx.Called, tx.TimeBefore, tx.TimeAfter, b, gself, n, n, wself, before[n], after[n])
+					}
+				}
 				// negotiation counterparts ran too
 				if !tx.IsAuto {
 					if cnt[fmt.Sprintf("%d/%s%s", b, n, am.SuffixEnter)] != ws || cnt[fmt.Sprintf("%d/%s%s", b, n, am.SuffixExit)] != we {
@@ -356,7 +369,7 @@ func genCase(t *rapid.T) Case {
 
 func TestLifecycle(t *testing.T) {
 	st := ev.G()
-	st.SetRapid(700, 20000, 1)
+	st.SetRapid(1500, 20000, 1)
 	rapid.Check(t, func(t *rapid.T) {
 		c := genCase(t)
 		st.Journal(map[string]any{"kind": "lifecycle", "case": c})
